@@ -2,6 +2,7 @@ import Liquid.Std
 import Proofs.C09
 import Proofs.RepEqRender
 import Proofs.RepEqFilters
+import Proofs.RepEqSort
 /-!
 # C18 — output depends on a binding's Liquid value, not on its Go representation
 
@@ -239,7 +240,8 @@ generic containers of the same contents at every depth, and — through `unwrap`
 a drop (of any depth) or a pointer (not to a struct) with the value it stands for. For this
 relation the standard output layer (`stdOut_respects`), the standard comparisons
 (`opEq_prep_vrel`, `opLt_prep_vrel`, `opContains_prep_vrel`, `equal_prep_repEq`) and every standard
-filter except `sort`, `uniq`, `sort_natural` (`filterRespects_std`) respect it. Drops *inside*
+filter except `uniq` respect it (`filterRespects_std`: exactly, all but `sort`, `uniq`,
+`sort_natural`; `filterRespects_std_upto`: up to `unmodelled`, all but `uniq`). Drops *inside*
 containers are not covered for the standard configuration: see the counterexamples below. -/
 
 /-- **C18 for the standard configuration** (partial). `allowed` says which filters are registered
@@ -248,42 +250,41 @@ template against environments whose bindings are representation-equivalent (`ERe
 results that agree (`RunAgree true`: the same output or the same error, or one of the two runs is
 outside the model).
 
-Full statement wanted: the same for `stdPrims` and no hypotheses. What is missing:
-* `hsort`, `hnat` — the bodies of `sort` and `sort_natural` are not shown to respect the
-  equivalence (open; they need a congruence for `List.mergeSort`);
+Full statement wanted: the same for `stdPrims`, with equal results, for `ERel true`. What is missing,
+and why (each with an evaluated counterexample below):
 * `huniq` — `uniq` must not be registered: it does *not* respect the equivalence (it compares
-  elements by Go interface equality, which sees the element type of a nested slice; example below);
+  elements by Go interface equality, which sees the element type of a nested slice);
 * "agree" instead of "equal": a fixed-array needle against an ordered map with a fixed-array key is
-  `unmodelled` (`comparableV`) while the generic slice gives `false` (example below);
+  `unmodelled` (`comparableV`) while the generic slice gives `false`; `sort`/`sort_natural` answer
+  `unmodelled` for more than 12 elements with ties that differ in their encoding;
 * `d = false`: drops nested in containers are exposed by `fmt.Sprint` (printing a map, a string
-  filter applied to an array), by `uniq`, and a drop that yields a drop by `values.Equal`. -/
-theorem run_std_rep_independent_partial (allowed : Bytes → Bool)
-    (hsort : allowed (ArrF.bn "sort") = true → FilterRespects true (ArrF.bn "sort"))
-    (hnat : allowed (ArrF.bn "sort_natural") = true → FilterRespects true (ArrF.bn "sort_natural"))
-    (huniq : allowed (ArrF.bn "uniq") = false)
+  filter applied to an array), and a drop that yields a drop by `values.Equal`. -/
+theorem run_std_rep_independent_partial (allowed : Bytes → Bool) (huniq : allowed (ArrF.bn "uniq") = false)
     (cfg : Cfg) (fs : FS) (fuel : Nat) (src : Bytes) (line : Nat) (env env' : Env)
     (he : ∀ x, ERel false (env.get x) (env'.get x)) :
     RunAgree true (run (stdPrimsOnly allowed) stdOut cfg fs fuel src line env)
       (run (stdPrimsOnly allowed) stdOut cfg fs fuel src line env') := by
   refine run_rel _ _ cfg fs fuel (stdPrimsOnly_respects allowed ?_) (stdOut_respects true) src line he
-  intro n hn ha
-  simp only [openFilters, List.mem_cons, List.not_mem_nil, or_false] at hn
-  rcases hn with rfl | rfl | rfl
-  · exact hsort ha
-  · rw [huniq] at ha; cases ha
-  · exact hnat ha
+  intro n _ ha
+  refine filterRespects_std_upto n (fun hn => ?_)
+  simp only [List.mem_cons, List.not_mem_nil, or_false] at hn
+  subst hn
+  rw [huniq] at ha
+  cases ha
 
-/-- **C18 for the standard configuration without `sort`, `uniq`, `sort_natural`**: no hypothesis
-left. Every template, every file system and include depth: environments that differ in typed vs
-generic slices, fixed arrays vs slices, typed vs generic maps (at any depth), and in drops and
-pointers around a binding, render to agreeing results. -/
-theorem run_std_core_rep_independent (cfg : Cfg) (fs : FS) (fuel : Nat) (src : Bytes) (line : Nat) (env env' : Env)
+/-- **C18 for the standard engine without `uniq`**: no hypothesis left. Every template, every file
+system and include depth: environments that differ in typed vs generic slices, fixed arrays vs
+slices, typed vs generic maps (at any depth), and in drops and pointers around a binding, render to
+agreeing results. -/
+theorem run_std_rep_independent_without_uniq (cfg : Cfg) (fs : FS) (fuel : Nat) (src : Bytes) (line : Nat) (env env' : Env)
     (he : ∀ x, ERel false (env.get x) (env'.get x)) :
-    RunAgree true (run (stdPrimsOnly coreFilters) stdOut cfg fs fuel src line env)
-      (run (stdPrimsOnly coreFilters) stdOut cfg fs fuel src line env') :=
-  run_std_rep_independent_partial coreFilters
-    (fun h => absurd h (by decide +kernel)) (fun h => absurd h (by decide +kernel))
-    (by decide +kernel) cfg fs fuel src line env env' he
+    RunAgree true (run (stdPrimsOnly withoutUniq) stdOut cfg fs fuel src line env)
+      (run (stdPrimsOnly withoutUniq) stdOut cfg fs fuel src line env') :=
+  run_std_rep_independent_partial withoutUniq (by simp [withoutUniq]) cfg fs fuel src line env env' he
+
+/-- the output layer respects the equivalence exactly (no `unmodelled` escape) -/
+example (v v' : GoVal) (h : URel false v v') : stdOut.chunks v = stdOut.chunks v' :=
+  ((stdOut_respects false).chunks v v' h).eq
 
 /-- the hypotheses on the environments are satisfiable: `x` bound to a drop of a pointer to a typed
     slice of fixed arrays, against the generic slice of generic slices -/
